@@ -11,10 +11,13 @@ Property theorems only.  `sp` is the public-suffix split (property C08), an arbi
 function; what is needed from it is stated as an explicit hypothesis (`SplitLaw`, derived
 from C08's clause `SplitRejoins` by `splitRejoins_of_c08`).
 
-The model starts from the five components `p : Parts` returned by
-`urlsplit(ensure_protocol(url))` and ends at the five components `lru_to_url` hands to
-`urlunsplit`; "`urlsplit(urlunsplit(t))` has the components `t`" is a CPython fact, checked on
-every correspondence case by the oracle, not proved.
+Component level (first part): the model starts from the five components `p : Parts` returned
+by `urlsplit(ensure_protocol(url))` and ends at the five components `lru_to_url` hands to
+`urlunsplit`.  String level (last part, "the parser inside the model"): `urlParts u` is the
+Lean model of `urlsplit(ensure_protocol(u))`, and "`urlsplit(urlunsplit(t))` has the components
+`t`" is no longer assumed: it is `UrlRoundTrip.urlsplit_urlunsplit20` applied to the components
+`lru_to_url` prints (`serialization_string`, `roundtrip_string_partial`,
+`accessors_string_partial`; the class of strings is `Lru.inClass`, `Model/LruUrl.lean`).
 
 Hypotheses: `wfParts p` — the netloc is inside the URL grammar (at most one `@`; host bracketed
 or without `:[]`; port without `:[]`) and the path is empty or starts with `/` (what `urlsplit`
